@@ -15,22 +15,33 @@ from .. import suite
 U8 = U(8)
 
 
+U16 = U(16)
+
+
 class Gen:
-    def __init__(self):
+    def __init__(self, mixed=None):
+        """mixed: None -> every leaf is u8; otherwise a random.Random that picks u8 / u16 per binding, so that
+        an outer and an inner binding of one name can differ in type (the typing-side scope stack then matters)"""
         self.nw = 0
         self.ne = 0
         self.fns = {}
+        self.mixed = mixed
+
+    def leaf(self):
+        if self.mixed is None:
+            return U8
+        return self.mixed.choice([U8, U16, U8, U16, U(32)])
 
     def wit(self, ty):
         self.nw += 1
         return Wit("W%d" % self.nw, ty)
 
-    def use(self, name):
+    def use(self, name, ty=U8):
         self.ne += 1
-        return ExprStmt(Assert(JetCall("eq_8", [Var(name, U8), Wit("E%d" % self.ne, U8)], BOOL)))
+        return ExprStmt(Assert(JetCall("eq_%d" % ty[1], [Var(name, ty), Wit("E%d" % self.ne, ty)], BOOL)))
 
     def uses(self, bound):
-        return [self.use(n) for n in sorted(bound)]
+        return [self.use(n, bound[n]) for n in sorted(bound)]
 
     def fn(self, key):
         if key in self.fns:
@@ -44,6 +55,22 @@ class Gen:
             "inner": FnDef("inner", [("a", U8), ("b", U8)], U8, Block([ExprStmt(Block([Let("a", U8, b)])),
                                                                         Let("b", U8, Block([Let("b", U8, a)], Var("b", U8)))], b)),
             "one": FnDef("one", [("b", U8)], U8, Block([Let("a", U8, b)], a)),
+            # function scopes of every arity whose body re-binds a parameter (values derived with a jet:
+            # witnesses are not allowed outside main)
+            "rebind1": FnDef("rebind1", [("a", U8)], U8, Block([Let("a", U8, JetCall("complement_8", [a], U8))], a)),
+            "rebind1_then": FnDef("rebind1_then", [("b", U8)], U8, Block([Let("b", U8, JetCall("complement_8", [b], U8)), Let("a", U8, b)], a)),
+            "rebind1_tuple": FnDef("rebind1_tuple", [("a", U8)], U8, Block([
+                Let(PTuple([PVar("a"), PVar("b")]), TUP(U8, U8), TupleE([JetCall("complement_8", [a], U8), a]))],
+                JetCall("xor_8", [a, JetCall("left_pad_low_1_8", [JetCall("leftmost_8_1", [b], U(1))], U8)], U8))),
+            "rebind1_arm": FnDef("rebind1_arm", [("a", U8)], U8, Block([], Match(
+                JetCall("is_zero_8", [a], BOOL), Arm("true", a),
+                Arm("false", Block([Let("a", U8, JetCall("complement_8", [a], U8))], a))))),
+            "rebind1_opt": FnDef("rebind1_opt", [("a", OPT(U8))], U8, Block([], Match(
+                Var("a", OPT(U8)), Arm("none", Lit(U8, 9)), Arm("some", JetCall("complement_8", [a], U8), "a", U8)))),
+            "rebind0": FnDef("rebind0", [], U8, Block([Let("a", U8, Lit(U8, 5)), Let("a", U8, JetCall("complement_8", [a], U8))], a)),
+            "rebind3": FnDef("rebind3", [("a", U8), ("b", U8), ("c", U8)], U8, Block([
+                Let("c", U8, a), Let("a", U8, b), Let("b", U8, Var("c", U8))],
+                Block([Let(PTuple([PIgnore(), PVar("d")]), TUP(BOOL, U8), JetCall("subtract_8", [a, b], TUP(BOOL, U8)))], Var("d", U8)))),
         }
         self.fns[key] = defs[key]
         return defs[key]
@@ -69,16 +96,16 @@ def n_leaves(shape):
     return sum(n_leaves(s) for s in shape[1:])
 
 
-def fill(shape, leaves):
+def fill(shape, leaves, leaf=U8):
     """returns (pattern, type) consuming names from the list `leaves`"""
     if shape == "x" or shape == ("x",):
         n = leaves.pop(0)
-        return (PIgnore() if n == "_" else PVar(n)), U8
+        return (PIgnore() if n == "_" else PVar(n)), leaf
     kind = shape[0]
-    subs = [fill(s, leaves) for s in shape[1:]]
+    subs = [fill(s, leaves, leaf) for s in shape[1:]]
     if kind == "tuple":
         return PTuple([p for p, _ in subs]), TUP(*[t for _, t in subs])
-    return PArray([p for p, _ in subs]), ARR(U8, len(subs))
+    return PArray([p for p, _ in subs]), ARR(leaf, len(subs))
 
 
 def leaf_assignments(k):
@@ -105,25 +132,32 @@ SIMPLE = [("letpat", i) for i in range(len(ALL_PATTERN_LETS))]
 OTHER = [("swap", None), ("copy", "a"), ("copy", "b"), ("block_unit", None), ("block_value", "a"), ("block_value", "b"),
          ("match_opt", "a"), ("match_opt", "b"), ("match_either_let", "a"), ("match_either_let", "b"),
          ("match_bool_block", None),
-         ("call", "first"), ("call", "second"), ("call", "swapped"), ("call", "shadow"), ("call", "inner"), ("call", "one")]
+         ("call", "first"), ("call", "second"), ("call", "swapped"), ("call", "shadow"), ("call", "inner"), ("call", "one"),
+         ("call", "rebind1"), ("call", "rebind1_then"), ("call", "rebind1_tuple"), ("call", "rebind1_arm"), ("call", "rebind1_opt"),
+         ("call", "rebind0"), ("call", "rebind3")]
 
 
 def emit(g, item, bound, depth, inner_items):
-    """returns (statements, new bound set) or None if the item is not applicable in this scope"""
+    """bound: dict name -> type.  returns (statements, new bound dict) or None if the item is not applicable"""
     kind, par = item
     if kind == "letpat":
         shape, combo = ALL_PATTERN_LETS[par]
-        pat, ty = fill(shape, list(combo))
-        return [Let(pat, ty, g.wit(ty))], bound | {c for c in combo if c != "_"}
+        leaf = g.leaf()
+        pat, ty = fill(shape, list(combo), leaf)
+        nb = dict(bound)
+        nb.update({c: leaf for c in combo if c != "_"})
+        return [Let(pat, ty, g.wit(ty))], nb
     if kind == "swap":
-        if not {"a", "b"} <= bound:
+        if not {"a", "b"} <= set(bound):
             return None
-        return [Let(PTuple([PVar("a"), PVar("b")]), TUP(U8, U8), TupleE([Var("b", U8), Var("a", U8)]))], bound
+        ta, tb = bound["a"], bound["b"]
+        nb = dict(bound, a=tb, b=ta)
+        return [Let(PTuple([PVar("a"), PVar("b")]), TUP(tb, ta), TupleE([Var("b", tb), Var("a", ta)]))], nb
     if kind == "copy":
         other = "b" if par == "a" else "a"
         if other not in bound:
             return None
-        return [Let(par, U8, Var(other, U8))], bound | {par}
+        return [Let(par, bound[other], Var(other, bound[other]))], dict(bound, **{par: bound[other]})
     if kind in ("block_unit", "block_value"):
         if depth <= 0:
             return None
@@ -132,27 +166,27 @@ def emit(g, item, bound, depth, inner_items):
             return None
         if kind == "block_unit":
             return [ExprStmt(Block(stmts))], bound
-        res = sorted(b2)[0] if b2 else None
-        if res is None:
+        if not b2:
             return None
         # the block's value is some bound name (prefer the one that is *not* being defined)
         cand = [n for n in sorted(b2) if n != par] or sorted(b2)
-        return [Let(par, U8, Block(stmts, Var(cand[0], U8)))], bound | {par}
+        t = b2[cand[0]]
+        return [Let(par, t, Block(stmts, Var(cand[0], t)))], dict(bound, **{par: t})
     if kind == "match_opt":
         if depth <= 0:
             return None
-        arm_scope = bound | {par}
+        leaf = g.leaf()
+        arm_scope = dict(bound, **{par: leaf})
         inner, _ = emit_seq(g, inner_items, arm_scope, depth - 1, [])
         if inner is None:
             return None
         none_body = Block(g.uses(bound))
         some_body = Block(g.uses(arm_scope) + inner)
-        m = Match(g.wit(OPT(U8)), Arm("none", none_body), Arm("some", some_body, par, U8))
+        m = Match(g.wit(OPT(leaf)), Arm("none", none_body), Arm("some", some_body, par, leaf))
         return [ExprStmt(m)], bound
     if kind == "match_either_let":
-        other = "b" if par == "a" else "a"
         m = Match(g.wit(EITHER(U8, U8)), Arm("left", Var("a", U8), "a", U8), Arm("right", Var("b", U8), "b", U8))
-        return [Let(par, U8, m)], bound | {par}
+        return [Let(par, U8, m)], dict(bound, **{par: U8})
     if kind == "match_bool_block":
         if depth <= 0 or not bound:
             return None
@@ -160,7 +194,9 @@ def emit(g, item, bound, depth, inner_items):
         if t_inner is None:
             return None
         n = sorted(bound)[0]
-        m = Match(g.wit(BOOL), Arm("false", Block([Let(n, U8, g.wit(U8))] + g.uses(bound))), Arm("true", Block(t_inner)))
+        leaf = g.leaf()
+        inner_scope = dict(bound, **{n: leaf})
+        m = Match(g.wit(BOOL), Arm("false", Block([Let(n, leaf, g.wit(leaf))] + g.uses(inner_scope))), Arm("true", Block(t_inner)))
         return [ExprStmt(m)], bound
     if kind == "call":
         f = g.fn(par)
@@ -168,14 +204,14 @@ def emit(g, item, bound, depth, inner_items):
         for i, (pn, pt) in enumerate(f.params):
             # pass the *other* name where possible, to cross parameter and argument names
             want = "b" if pn == "a" else "a"
-            if want in bound:
-                args.append(Var(want, U8))
-            elif pn in bound:
-                args.append(Var(pn, U8))
+            if bound.get(want) == pt:
+                args.append(Var(want, pt))
+            elif bound.get(pn) == pt:
+                args.append(Var(pn, pt))
             else:
-                args.append(g.wit(U8))
+                args.append(g.wit(pt))
         target = "a" if (len(args) + len(par)) % 2 == 0 else "b"
-        return [Let(target, U8, Call(f, args))], bound | {target}
+        return [Let(target, U8, Call(f, args))], dict(bound, **{target: U8})
     raise ValueError(kind)
 
 
@@ -191,9 +227,9 @@ def emit_seq(g, items, bound, depth, inner_items):
     return stmts, bound
 
 
-def program_from(items, inner_items, depth=2):
-    g = Gen()
-    stmts, bound = emit_seq(g, items, set(), depth, inner_items)
+def program_from(items, inner_items, depth=2, mixed=None):
+    g = Gen(mixed)
+    stmts, bound = emit_seq(g, items, {}, depth, inner_items)
     if stmts is None:
         return None
     fns = list(g.fns.values())
@@ -268,6 +304,32 @@ def cases(tier, seed):
         p = program_from(items, inner, depth=3)
         if p is not None:
             add("scope-deep-%d" % i, p, length=ln, depth=3)
+    # bindings of one name at different types on different levels: the typing-side scope stack must agree
+    # with the code-generation-side one (an outer `a: u16`, an inner `a: u8`, a use two levels further in)
+    k = 500 if tier == "quick" else 5000
+    for i in range(k):
+        r2 = random.Random(seed * 104729 + i)
+        ln = r2.choice([2, 3, 3, 4])
+        items = [r2.choice(alphabet if r2.random() < 0.45 else OTHER) for _ in range(ln)]
+        inner = [r2.choice(alphabet if r2.random() < 0.5 else OTHER) for _ in range(r2.choice([1, 2, 2, 3]))]
+        p = program_from(items, inner, depth=3, mixed=r2)
+        if p is not None:
+            add("scope-typed-%d" % i, p, length=ln, depth=3, leaves="u8/u16/u32 mixed")
+    # hand-written three-level shadowing at different types (the shape that separates the two scope stacks)
+    for j, (t_outer, t_inner) in enumerate([(U16, U8), (U8, U16), (U(32), U8)]):
+        gg = Gen()
+        deep = Block([ExprStmt(Block(gg.uses({"a": t_inner})))] + gg.uses({"a": t_inner}))
+        body = [Let("a", t_outer, gg.wit(t_outer))] + gg.uses({"a": t_outer}) + [
+            ExprStmt(Block([Let("a", t_inner, gg.wit(t_inner)), ExprStmt(deep),
+                            ExprStmt(Match(gg.wit(BOOL), Arm("false", Block(gg.uses({"a": t_inner}))), Arm("true", Block([]))))]))] + gg.uses({"a": t_outer})
+        add("scope-three-levels-%d" % j, Program([], Block(body)), length=3, depth=3)
+        f = FnDef("rebind_typed", [("a", t_outer)], t_inner, Block([Let("a", t_inner,
+                  (JetCall("leftmost_16_8", [Var("a", U16)], U8) if (t_outer, t_inner) == (U16, U8) else
+                   JetCall("left_pad_low_8_16", [Var("a", U8)], U16) if (t_outer, t_inner) == (U8, U16) else
+                   JetCall("leftmost_32_8", [Var("a", U(32))], U8)))],
+                  Match(JetCall("is_zero_%d" % t_inner[1], [Var("a", t_inner)], BOOL), Arm("true", Var("a", t_inner)), Arm("false", Block([], Var("a", t_inner))))))
+        g2 = Gen()
+        add("scope-fn-rebind-typed-%d" % j, Program([f], Block([Let("b", t_inner, Call(f, [g2.wit(t_outer)]))] + g2.uses({"b": t_inner}))), length=1, depth=2)
     # ill-scoped programs must be rejected
     for name, prog in reject_cases():
         out.append(E.Case("scope-reject-" + name, prog, expect_reject=True, validate=False, debug_modes=(False,),
@@ -289,7 +351,7 @@ def classify(r):
 def main():
     tier, seed = suite.tier_seed()
     return suite.run_property(
-        "C10", cases(tier, seed), classify=classify,
+        "C10", cases(tier, seed), classify=classify, rejection_is_violation=True,
         technique="SMT (z3, QF_UFBV) equivalence of the emitted Simplicity DAG and an environment-stack source evaluator; every bound value is a distinct symbolic witness",
         functions=["compile.rs: Scope (push_scope/pop_scope/insert/get_input_pattern/get), compile_blk, Match::compile, Call::compile (Custom)",
                    "pattern.rs: BasePattern::from/get/translate", "named.rs: SelectorBuilder/PairBuilder", "ast.rs: typing-side scope stack (accept/reject of the generated programs)"],
